@@ -378,11 +378,13 @@ def job_refresh_unrolled(ncalls):
     return recs
 
 
-def job_object(n, bits, custom):
+def job_object(n, bits, custom, rebits=False):
     """RealQuantizer.quantize and ComplexQuantizer.quantize: value = clip(rne(..)) with cached prefix statistics
-    (or the custom deviation); complex = two independent real quantisers with separate statistics"""
+    (or the custom deviation); complex = two independent real quantisers with separate statistics.
+    rebits: the quantiser is constructed with the default 8 bits and the bit depth is then assigned on it and on its two
+    parts -- exactly what RawVoltageBackend.from_data does for a 4-bit input; the output range follows the assignment"""
     recs = []
-    tag = f"C09:object:{(n, bits, custom)}"
+    tag = f"C09:object:{(n, bits, custom)}" + (':bits-reassigned' if rebits else '')
     xr, xi = sym_stream('xr', n), sym_stream('xi', n)
     z = npx.sarr([SymC(a, b) for a, b in zip(xr, xi)])
     cs = {'none': None, 'scalar': Sym(z3.Real('cs')), 'pair': [Sym(z3.Real('cs_r')), Sym(z3.Real('cs_i'))]}[custom]
@@ -395,7 +397,11 @@ def job_object(n, bits, custom):
 
     def run():
         def body():
-            cq = Q.ComplexQuantizer(target_fwhm=32, num_bits=bits, stats_calc_num_samples=nstat)
+            if rebits:
+                cq = Q.ComplexQuantizer(target_fwhm=32, stats_calc_num_samples=nstat)
+                cq.num_bits = cq.quantizer_r.num_bits = cq.quantizer_i.num_bits = bits
+            else:
+                cq = Q.ComplexQuantizer(target_fwhm=32, num_bits=bits, stats_calc_num_samples=nstat)
             out = cq.quantize(z, custom_stds=cs)
             return out, cq
         (out, cq), st = with_stats_stub(body)
@@ -411,7 +417,7 @@ def job_object(n, bits, custom):
             r, _ = core.check(base)
             recs.append(q(f"{tag}:leaf{li}:noexc", r, detail=repr(leaf.value)))
             if r == 'sat':
-                recs.append(cex('C09:object:raise', f'quantize raised {leaf.value!r}', dict(fn='object', n=n, bits=bits, custom=custom), name=f"{tag}:leaf{li}:noexc"))
+                recs.append(cex('C09:object:raise', f'quantize raised {leaf.value!r}', dict(fn='object', n=n, bits=bits, custom=custom, rebits=rebits), name=f"{tag}:leaf{li}:noexc"))
             continue
         out, cq, st = leaf.value
         # two estimates: one of the real parts, one of the imaginary parts, each of its own prefix
@@ -420,7 +426,7 @@ def job_object(n, bits, custom):
         r0, _ = core.check([RV(int(okcall)) != 1])
         recs.append(q(f"{tag}:leaf{li}:separate-estimates", r0, trivial=True))
         if not okcall:
-            recs.append(cex('C09:object:stats', 'real/imaginary statistics are not estimated separately from their own parts', dict(fn='object', n=n, bits=bits, custom=custom), name=f"{tag}:leaf{li}:separate-estimates"))
+            recs.append(cex('C09:object:stats', 'real/imaginary statistics are not estimated separately from their own parts', dict(fn='object', n=n, bits=bits, custom=custom, rebits=rebits), name=f"{tag}:leaf{li}:separate-estimates"))
             continue
         for part, xs_, sel in (('re', xr, 0), ('im', xi, 1)):
             xs = [lift(e) for e in xs_]
@@ -436,7 +442,7 @@ def job_object(n, bits, custom):
             r, m = core.check(base + [z3.Or(*[a != b for a, b in zip(got, spec)])], timeout_ms=120000)
             recs.append(q(f"{tag}:leaf{li}:{part}", r))
             if r == 'sat':
-                recs.append(cex(f'C09:object:{part}', f'{part} part of ComplexQuantizer output is not the real quantiser of that part alone', dict(fn='object', n=n, bits=bits, custom=custom), name=f"{tag}:leaf{li}:{part}"))
+                recs.append(cex(f'C09:object:{part}', f'{part} part of ComplexQuantizer output is not the real quantiser of that part alone', dict(fn='object', n=n, bits=bits, custom=custom, rebits=rebits), name=f"{tag}:leaf{li}:{part}"))
         # cached statistics exposed by the complex quantiser are the two separate estimates
         cached = [cq.stats_cache_r[0], cq.stats_cache_r[1], cq.stats_cache_i[0], cq.stats_cache_i[1]]
         if any(c is None for c in cached):
@@ -447,7 +453,7 @@ def job_object(n, bits, custom):
         r, _ = core.check(base + [z3.Or(*cl)], timeout_ms=60000)
         recs.append(q(f"{tag}:leaf{li}:separate-stats", r))
         if r == 'sat':
-            recs.append(cex('C09:object:cache', 'the cached statistics of the real and the imaginary quantiser are not the two separate estimates', dict(fn='object', n=n, bits=bits, custom=custom), name=f"{tag}:leaf{li}:separate-stats"))
+            recs.append(cex('C09:object:cache', 'the cached statistics of the real and the imaginary quantiser are not the two separate estimates', dict(fn='object', n=n, bits=bits, custom=custom, rebits=rebits), name=f"{tag}:leaf{li}:separate-stats"))
     r, _ = core.check(pre + [z3.Not(z3.Or(*conds))])
     recs.append(q(f"{tag}:split-complete", r, leaves=len(leaves)))
     return recs
@@ -830,7 +836,13 @@ def replay_object(p):
     n, bits = p['n'], p['bits']
     xr, xi = rng.normal(0, 3, n), rng.normal(1, 7, n)
     cs = {'none': None, 'scalar': 2.5, 'pair': [2.5, 0.5]}[p['custom']]
-    cq = qz.ComplexQuantizer(target_fwhm=32, num_bits=bits, stats_calc_num_samples=2)
+    if p.get('rebits'):
+        # strong input, so that the narrower range matters
+        xr, xi = xr * 4, xi * 4
+        cq = qz.ComplexQuantizer(target_fwhm=32, stats_calc_num_samples=2)
+        cq.num_bits = cq.quantizer_r.num_bits = cq.quantizer_i.num_bits = bits
+    else:
+        cq = qz.ComplexQuantizer(target_fwhm=32, num_bits=bits, stats_calc_num_samples=2)
     try:
         out = cq.quantize(xr + 1j * xi, custom_stds=cs)
     except Exception as e:
@@ -920,6 +932,8 @@ def main():
             jobs.append(('job_monotone_exec', (max(n, 2), bits)))
         for custom in ('none', 'scalar', 'pair'):
             jobs.append(('job_object', (3, bits, custom)))
+        if bits != 8:
+            jobs.append(('job_object', (3, bits, 'none', True)))
     for period in (1, 2, 3, 0, -1):
         jobs.append(('job_complex_sequence', (period, 3 if not ck.thorough else 4, 2)))
         for customs in ('cnn', 'ncn', 'cnc'):
